@@ -196,9 +196,14 @@ func (c *SendCtl) WaitEvent(d time.Duration, pred func(*SendEv) bool) *SendEv {
 // SendLoopback returns a connected pair of uacp connections over 127.0.0.1
 // (real HEL/ACK handshake of the library on both ends).
 func SendLoopback() (cli, srv *uacp.Conn, cleanup func(), err error) {
-	ctx, cancel := context.WithTimeout(context.Background(), 10*time.Second)
+	return SendLoopbackSize(65535)
+}
+
+// SendLoopbackSize is SendLoopback with the given buffer (= chunk) size on both ends.
+func SendLoopbackSize(buf uint32) (cli, srv *uacp.Conn, cleanup func(), err error) {
+	ctx, cancel := context.WithTimeout(context.Background(), 30*time.Second)
 	defer cancel()
-	ack := &uacp.Acknowledge{ReceiveBufSize: 65535, SendBufSize: 65535, MaxChunkCount: 512, MaxMessageSize: 16 << 20}
+	ack := &uacp.Acknowledge{ReceiveBufSize: buf, SendBufSize: buf, MaxChunkCount: 512, MaxMessageSize: 16 << 20}
 	l, err := uacp.Listen(ctx, "opc.tcp://127.0.0.1:0", ack)
 	if err != nil {
 		return nil, nil, nil, err
@@ -212,7 +217,7 @@ func SendLoopback() (cli, srv *uacp.Conn, cleanup func(), err error) {
 		c, err := l.Accept(ctx)
 		ch <- acc{c, err}
 	}()
-	d := &uacp.Dialer{ClientACK: &uacp.Acknowledge{ReceiveBufSize: 65535, SendBufSize: 65535}}
+	d := &uacp.Dialer{ClientACK: &uacp.Acknowledge{ReceiveBufSize: buf, SendBufSize: buf}}
 	cli, err = d.Dial(ctx, "opc.tcp://"+l.Addr().String())
 	if err != nil {
 		l.Close()
